@@ -203,6 +203,14 @@ func (r *Run) verifAPI(fn *ssa.Function, args []Value) (Value, bool) {
 		ev.terms = append([]*Term{}, r.regionBytes(s.P, s.Len)...)
 		r.events = append(r.events, ev)
 		return Tuple{}, true
+	case "verifBindFormat":
+		tv := args[0]
+		if iv, ok := tv.(Iface); ok {
+			tv = iv.V
+		}
+		w, e, _ := r.timeParts(tv)
+		r.formats[[2]int{w.ID, e.ID}] = args[1].(Str)
+		return Tuple{}, true
 	case "verifGCChurn", "verifKeepAlive":
 		return Tuple{}, true
 	case "verifNoValidate":
